@@ -46,11 +46,7 @@ func (x *Exec) execInstr(fr *Frame, st *State, instr ssa.Instruction) {
 	case *ssa.DebugRef:
 		if id, ok := t.Expr.(*ast.Ident); ok {
 			if v, have := fr.vals[t.X]; have {
-				if t.IsAddr {
-					fr.namedAddr[id.Name] = v
-				} else {
-					fr.named[id.Name] = v
-				}
+				fr.namedDefs[id.Name] = append(fr.namedDefs[id.Name], namedDef{t.Block(), v, t.IsAddr})
 			} else if _, isConst := t.X.(*ssa.Const); !isConst && !t.IsAddr {
 				if _, isParam := t.X.(*ssa.Parameter); !isParam {
 					_ = id
@@ -544,6 +540,9 @@ func (x *Exec) doTypeAssert(fr *Frame, st *State, t *ssa.TypeAssert) Val {
 			} else {
 				okT = "false"
 			}
+		} else if impl := x.prog.singleImpl(t.AssertedType); impl != nil {
+			x.trusted["devirtualized:"+qualifiedTypeName(t.AssertedType)+"="+types.TypeString(impl, nil)] = true
+			okT = and(not(eq(v.L[0], "inil")), eq(app("ityp", v.L[0]), x.typeID(impl)))
 		} else {
 			x.smt.DeclareFun("implements", []string{bvSort(16), bvSort(16)}, SBool)
 			okT = and(not(eq(v.L[0], "inil")), app("implements", app("ityp", v.L[0]), x.typeID(t.AssertedType)))
